@@ -67,13 +67,31 @@ func (s PetSpec) Build() *Pet {
 }
 func (s LangSpec) Build() Language { return Language{Code: s.Code, Name: s.Name} }
 
-func (s *UserSpec) Build() *User {
+// Shared lets records with the same non-zero key be one in-memory record
+// referenced from several parents (the usual `c := &Company{…}; users := []User{{Company: c}, {Company: c}}`).
+type Shared struct {
+	Companies map[uint]*Company
+	Friends   map[uint]*User
+}
+
+func NewShared() *Shared { return &Shared{Companies: map[uint]*Company{}, Friends: map[uint]*User{}} }
+
+func (s *UserSpec) Build() *User { return s.BuildShared(nil) }
+
+func (s *UserSpec) BuildShared(sh *Shared) *User {
 	if s == nil {
 		return nil
 	}
 	u := &User{ID: s.ID, Name: s.Name, Age: s.Age}
 	u.Company = s.Company.Build()
-	u.Manager = s.Manager.Build()
+	if sh != nil && u.Company != nil && u.Company.ID != 0 {
+		if c, ok := sh.Companies[u.Company.ID]; ok {
+			u.Company = c
+		} else {
+			sh.Companies[u.Company.ID] = u.Company
+		}
+	}
+	u.Manager = s.Manager.BuildShared(sh)
 	u.Account = s.Account.Build()
 	for _, p := range s.Pets {
 		u.Pets = append(u.Pets, p.Build())
@@ -82,13 +100,21 @@ func (s *UserSpec) Build() *User {
 		u.Toys = append(u.Toys, t.Build())
 	}
 	for i := range s.Team {
-		u.Team = append(u.Team, *s.Team[i].Build())
+		u.Team = append(u.Team, *s.Team[i].BuildShared(sh))
 	}
 	for _, l := range s.Languages {
 		u.Languages = append(u.Languages, l.Build())
 	}
 	for i := range s.Friends {
-		u.Friends = append(u.Friends, s.Friends[i].Build())
+		f := s.Friends[i].BuildShared(sh)
+		if sh != nil && f.ID != 0 {
+			if g, ok := sh.Friends[f.ID]; ok {
+				f = g
+			} else {
+				sh.Friends[f.ID] = f
+			}
+		}
+		u.Friends = append(u.Friends, f)
 	}
 	return u
 }
